@@ -11,6 +11,7 @@ import (
 	"strconv"
 	"strings"
 	"sync"
+	"sync/atomic"
 	"time"
 
 	"github.com/attestantio/go-eth2-client/spec/phase0"
@@ -34,6 +35,14 @@ type sim struct {
 	inbox  map[int]bool // pushed since the queue last drained its channel (not yet visible to a pop that does not read it)
 	trace  []string
 }
+
+// dropCounter is the Metrics implementation handed to the production wrapper
+type dropCounter struct{ n int64 }
+
+func (d *dropCounter) DroppedQueueMessage(spectypes.MessageID) { atomic.AddInt64(&d.n, 1) }
+
+// newQ builds the queue exactly as validator.NewValidator does (protocol/v2/ssv/validator/validator.go)
+func newQ(c int) queue.Queue { return queue.WithMetrics(queue.New(c), &dropCounter{}) }
 
 func mkMsg(body string) *queue.DecodedSSVMessage {
 	f := strings.Split(body, ":")
@@ -180,7 +189,7 @@ func (s *sim) do(line string) {
 	switch w[0] {
 	case "reset":
 		c, _ := strconv.Atoi(kv(w, "cap"))
-		s.q = queue.New(c)
+		s.q = newQ(c) // as validator.NewValidator builds it: WithMetrics(New(size), metrics)
 		s.ids, s.bodies, s.queued, s.popped = map[*queue.DecodedSSVMessage]int{}, map[int]string{}, map[int]*queue.DecodedSSVMessage{}, map[int]bool{}
 		s.inbox = map[int]bool{}
 		s.trace = []string{line}
@@ -329,7 +338,7 @@ func concurrentCases(run *hx.Run, r *hx.Rng) {
 		cases = 5
 	}
 	for c := 0; c < cases; c++ {
-		q := queue.New(r.Pick(2, 8, 32))
+		q := newQ(r.Pick(2, 8, 32))
 		producers, per := 2+r.Intn(4), 20+r.Intn(60)
 		var mu sync.Mutex
 		pushed := map[*queue.DecodedSSVMessage]bool{}
